@@ -238,3 +238,92 @@ def c10_dateadd_quarter():
     fs, conn, cur = real_cursor(False)
     got = cur.execute("select dateadd(quarter, 1, '2023-01-31'::date)").fetchall()[0][0]
     return got != datetime.date(2023, 4, 30), f"dateadd(quarter, 1, '2023-01-31'::date) -> {got!r}; Snowflake: date 2023-04-30"
+
+
+def c18_quoted_mixed_case_database_file():
+    import os
+    import tempfile
+
+    from fakesnow.instance import FakeSnow
+
+    with tempfile.TemporaryDirectory() as td:
+        fs = FakeSnow(db_path=td)
+        cur = fs.connect(database="db1", schema="s1").cursor()
+        cur.execute('create database "Mixed"')
+        fs.duck_conn.close()
+        fs2 = FakeSnow(db_path=td)
+        fs2.connect(database="Mixed")
+        files = sorted(os.listdir(td))
+        fs2.duck_conn.close()
+    bad = "Mixed.db" in files and "MIXED.db" in files
+    return bad, f"files under db_path after CREATE DATABASE \"Mixed\" and connect(database='Mixed'): {files}"
+
+
+def c18_multi_call_statements_are_torn():
+    """Kill (simulated: an exception from the engine wrapper) between the engine calls of CREATE TABLE .. COMMENT."""
+    from fakesnow.instance import FakeSnow
+
+    fs = FakeSnow()
+    conn = fs.connect(database="db1", schema="s1")
+    real = conn._duck_conn
+
+    class Killer:
+        def __init__(self):
+            self.n = 0
+
+        def __getattr__(self, name):
+            return getattr(real, name)
+
+        def execute(self, sql, params=None):
+            self.n += 1
+            if self.n == 2:
+                raise KeyboardInterrupt("killed between the calls of one statement")
+            return real.execute(sql, params)
+
+    cur = conn.cursor()
+    cur._duck_conn = Killer()
+    try:
+        cur.execute("create table tc (a int, b varchar(10)) comment = 'hello'")
+    except KeyboardInterrupt:
+        pass
+    c2 = conn.cursor()
+    tables = c2.execute("select table_name, comment from information_schema.tables where table_name = 'TC'").fetchall()
+    torn = tables == [("TC", None)]
+    return torn, f"after the kill the table exists without its comment: {tables}"
+
+
+def c19_connect_check_then_create_race():
+    """Deterministic replay of the race: a second session's connect commits between the first one's existence check and its ATTACH."""
+    from fakesnow.instance import FakeSnow
+
+    fs = FakeSnow()
+    real_cursor = fs.duck_conn.cursor
+    state = {"armed": True}
+
+    class Proxy:
+        def __init__(self, inner):
+            self._inner = inner
+
+        def __getattr__(self, name):
+            return getattr(self._inner, name)
+
+        def execute(self, sql, params=None):
+            if state["armed"] and str(sql).lstrip().upper().startswith("ATTACH DATABASE"):
+                state["armed"] = False
+                fs.connect(database="db1", schema="s1")  # the other session wins the race
+            return self._inner.execute(sql, params) if params is not None else self._inner.execute(sql)
+
+    class DuckProxy:
+        def __getattr__(self, name):
+            return getattr(fs_duck, name)
+
+        def cursor(self):
+            return Proxy(real_cursor()) if state["armed"] else real_cursor()
+
+    fs_duck = fs.duck_conn
+    fs.duck_conn = DuckProxy()
+    try:
+        fs.connect(database="db1", schema="s1")
+        return False, "connect survived the interleaving"
+    except Exception as e:  # noqa: BLE001
+        return True, f"connect() raised {type(e).__name__}: {str(e)[:90]} when another session attached the database between its check and its ATTACH"
